@@ -92,10 +92,10 @@ func tierN(tier string, q, t int) int {
 
 func C15() *engine.Check {
 	parse := &engine.Sub{
-		Name: "parse",
+		Name:   "parse",
 		Repeat: true,
-		Rule: "every string over {/,a,b,A,é,É} up to the length bound is offered to command.Parse; non-trivial = accepted by the reference grammar or by Parse",
-		Bound: func(t string) string { return fmt.Sprintf("length<=%d symbols", tierN(t, 6, 8)) },
+		Rule:   "every string over {/,a,b,A,é,É} up to the length bound is offered to command.Parse; non-trivial = accepted by the reference grammar or by Parse",
+		Bound:  func(t string) string { return fmt.Sprintf("length<=%d symbols", tierN(t, 6, 8)) },
 		Gen: func(tier string, emit func(any) bool) {
 			allStrings(c15Alphabet, tierN(tier, 6, 8), func(s string) bool { return emit(&c15ParseCase{S: s}) })
 		},
@@ -138,10 +138,10 @@ func C15() *engine.Check {
 	}
 
 	pairs := &engine.Sub{
-		Name: "covers-pairs",
+		Name:   "covers-pairs",
 		Repeat: true,
-		Rule: "every ordered pair of valid commands up to the length bound; Covers compared with the reference segment-prefix relation; antisymmetry, reflexivity, top; non-trivial = pairs sharing a textual prefix",
-		Bound: func(t string) string { return fmt.Sprintf("both commands length<=%d symbols", tierN(t, 6, 7)) },
+		Rule:   "every ordered pair of valid commands up to the length bound; Covers compared with the reference segment-prefix relation; antisymmetry, reflexivity, top; non-trivial = pairs sharing a textual prefix",
+		Bound:  func(t string) string { return fmt.Sprintf("both commands length<=%d symbols", tierN(t, 6, 7)) },
 		Gen: func(tier string, emit func(any) bool) {
 			cmds := validCommands(tierN(tier, 6, 7))
 			for _, x := range cmds {
@@ -195,8 +195,8 @@ func C15() *engine.Check {
 	}
 
 	triples := &engine.Sub{
-		Name: "covers-transitive",
-		Rule: "every ordered triple of valid commands up to the length bound: Covers(x,y) and Covers(y,z) imply Covers(x,z); non-trivial = triples whose premise holds",
+		Name:  "covers-transitive",
+		Rule:  "every ordered triple of valid commands up to the length bound: Covers(x,y) and Covers(y,z) imply Covers(x,z); non-trivial = triples whose premise holds",
 		Bound: func(t string) string { return fmt.Sprintf("all three commands length<=%d symbols", tierN(t, 4, 5)) },
 		Gen: func(tier string, emit func(any) bool) {
 			n := tierN(tier, 4, 5)
@@ -238,8 +238,8 @@ func C15() *engine.Check {
 	}
 
 	join := &engine.Sub{
-		Name: "join-segments",
-		Rule: "every valid command of <=4 symbols x every list of <=3 segments from {a,b,ab,''}: Segments(c.Join(s...)) = Segments(c) ++ non-empty s, result valid; New(s...) = Top().Join(s...); non-trivial = at least one non-empty segment",
+		Name:  "join-segments",
+		Rule:  "every valid command of <=4 symbols x every list of <=3 segments from {a,b,ab,''}: Segments(c.Join(s...)) = Segments(c) ++ non-empty s, result valid; New(s...) = Top().Join(s...); non-trivial = at least one non-empty segment",
 		Bound: func(t string) string { return "command length<=4 symbols, <=3 segments from 4" },
 		Gen: func(tier string, emit func(any) bool) {
 			segAlpha := []string{"a", "b", "ab", ""}
